@@ -398,6 +398,22 @@ def life (ord : Order) (rj : Bool) (mc : Nat) (fs : FS) (evs : List Ev) (clk : N
 /-- The state a restart recovers from a directory. -/
 def recover (rj : Bool) (fs : FS) : RecState := replay rj (fs.main.getD [])
 
+/-! ## Crashes (process-crash semantics: what was handed to the OS survives) -/
+
+/-- the operations that reach the OS (`flush` is only the bufio call) -/
+def osOps (ops : List FsOp) : List FsOp :=
+  ops.filter fun o => match o with
+    | .flush _ => false
+    | _ => true
+
+/-- The directory after a process crash just before operation `k` of `ops`; if that
+operation is a write, `cut` of its bytes are already on disk (`cut = 0`: none). -/
+def FS.crashAt (fs0 : FS) (ops : List FsOp) (k cut : Nat) : FS :=
+  let fs := fs0.applyAll (ops.take k)
+  match ops[k]? with
+  | some (.write p d) => if cut = 0 then fs else fs.apply (.write p (d.take cut))
+  | _ => fs
+
 /-- The in-memory state, in the shape `replay` produces. -/
 def Snap.mem (s : Snap) : RecState :=
   { alive := s.alive, clock := s.lastClock, eventClock := s.lastEventClock, queryClock := s.lastQueryClock }
